@@ -23,6 +23,7 @@ import (
 	"github.com/IrineSistiana/mosdns/v5/pkg/concurrent_lru"
 	"github.com/IrineSistiana/mosdns/v5/pkg/concurrent_map"
 	"github.com/IrineSistiana/mosdns/v5/pkg/utils"
+	"github.com/IrineSistiana/mosdns/v5/pkg/verifhook"
 	"sync/atomic"
 	"time"
 )
@@ -92,6 +93,7 @@ func (c *Cache[K, V]) Close() error {
 
 func (c *Cache[K, V]) Get(key K) (v V, expirationTime time.Time, ok bool) {
 	if e, hasEntry := c.m.Get(key); hasEntry {
+		verifhook.Point("cache.get.loaded")
 		if e.expirationTime.Before(time.Now()) {
 			c.m.Del(key)
 			return
